@@ -186,3 +186,30 @@ Example ex_mixed_needs_closure :
   let g := [mkEmod true false [] [] [1%nat] false; mkEmod true false [2%nat] [] [] true; mkEmod true false [] [] [] false] in
   wrap_consistent g = false /\ bundle_trace g 0 <> native_trace g 0.
 Proof. vm_compute. split; [reflexivity|discriminate]. Qed.
+
+(* dataurl_shortest_roundtrip: its codec hypotheses are satisfiable (a two-letters-per-byte codec) *)
+Definition toy_enc (t : bytes) : bytes := flat_map (fun b => [65 + b / 16; 65 + b mod 16]) t.
+Fixpoint toy_dec (fuel : nat) (l : bytes) : option bytes :=
+  match fuel, l with
+  | _, [] => Some []
+  | S f, a :: b :: r => option_map (cons ((a - 65) * 16 + (b - 65))) (toy_dec f r)
+  | _, _ => None
+  end.
+Example toy_codec_ok :
+  (forall t, Forall byte_ok t -> toy_dec (S (length (toy_enc t))) (toy_enc t) = Some t) /\
+  (forall t, Forall byte_ok t -> Forall b64_char (toy_enc t)).
+Proof.
+  split.
+  - intros t Ht.
+    assert (H : forall f, (length (toy_enc t) < f)%nat -> toy_dec f (toy_enc t) = Some t).
+    { induction Ht as [|b t Hb Ht IH]; intros f Hf; [destruct f; reflexivity|].
+      cbn [toy_enc flat_map app] in *. destruct f as [|f]; [cbn in Hf; lia|]. cbn [toy_dec].
+      fold (toy_enc t) in *. cbn [length] in Hf. rewrite IH by lia. cbn [option_map]. f_equal. f_equal.
+      unfold byte_ok in Hb. replace (65 + b / 16 - 65) with (b / 16) by lia. replace (65 + b mod 16 - 65) with (b mod 16) by lia.
+      rewrite Z.mul_comm. symmetry. apply Z.div_mod. lia. }
+    apply H. lia.
+  - intros t Ht. induction Ht as [|b t Hb Ht IH]; [constructor|]. cbn [toy_enc flat_map app]. unfold byte_ok in Hb.
+    assert (0 <= b / 16 < 16) by (split; [apply Z.div_pos; lia|apply Z.div_lt_upper_bound; lia]).
+    assert (0 <= b mod 16 < 16) by (apply Z.mod_pos_bound; lia).
+    constructor; [unfold b64_char; lia|]. constructor; [unfold b64_char; lia|exact IH].
+Qed.
